@@ -240,3 +240,16 @@ def replay(data):
                 print("misplaced:", r["t"], "given", r["a"])
                 ok = False
     return ok
+
+
+# --- R, the end-to-end reference assembler (Model/Asm.v): Props/R.v composes C02 with C01, C05, C06 on whole programs;
+# explore_r assembles generated programs and the practice corpus with the Coq model and compares with the implementation
+import r_corr  # noqa: E402
+PROP_FILES = PROP_FILES + ["Props/R.v"]
+RUN_FILES = RUN_FILES + ["Run/RRun.v"]
+_explore_without_r = explore
+
+
+def explore(rep, br, tier, seed):
+    _explore_without_r(rep, br, tier, seed)
+    r_corr.explore_r(rep, tier, seed)
